@@ -1,8 +1,9 @@
 (* Model/Blame.v — G for C46 (partial by design, DESIGN.md §4.C46).
    blame.go: Blame / addBlames / finishNeeds / applyNeeds, at the level of the attribution function:
-     a line of commit c is handed to the first parent (in parent order, among the parents that
-     contain the path) in which the line-diff oracle marks it Equal — or every line, at the same
-     index, when the parent's blob is identical —, and is charged to c when no parent takes it.
+     every line of commit c goes, at the same index, to the first parent whose blob is identical;
+     without such a parent a line is handed to the first parent (in parent order, among the parents
+     that contain the path) in which the line-diff oracle marks it Equal, and is charged to c when
+     no parent takes it.
    The priority queue, the merging of queue items of one commit, the identical-commit short cuts and
    numParentsNeedResolving are evaluation strategy of this function and are not modelled; rename
    following in parentsContainingPath is not modelled (parents without the path are skipped).
@@ -71,6 +72,23 @@ Fixpoint first_taker (h : history) (dt : dtable) (c : nat) (fc : list line) (i :
               end
   end.
 
+(* a parent whose blob is identical takes the whole blame, whatever its position (as git does;
+   the pre-scan added by "fix: blame passes all lines to a parent with an identical blob") *)
+Fixpoint identical_parent (h : history) (fc : list line) (ps : list nat) : option nat :=
+  match ps with
+  | [] => None
+  | p :: r => match file_of h p with
+              | Some fp => if lines_eqb fp fc then Some p else identical_parent h fc r
+              | None => identical_parent h fc r
+              end
+  end.
+
+Definition taker (h : history) (dt : dtable) (c : nat) (fc : list line) (i : nat) (ps : list nat) : option (nat * nat) :=
+  match identical_parent h fc ps with
+  | Some p => Some (p, i)
+  | None => first_taker h dt c fc i ps
+  end.
+
 (* the attribution: (commit, line index in that commit's version); None = out of fuel / no such line *)
 Fixpoint blame_pos (fuel : nat) (h : history) (dt : dtable) (c i : nat) : option (nat * nat) :=
   match fuel with
@@ -83,7 +101,7 @@ Fixpoint blame_pos (fuel : nat) (h : history) (dt : dtable) (c i : nat) : option
       | None => None
       | Some fc =>
         if Nat.ltb i (List.length fc) then
-          match first_taker h dt c fc i k.(c_parents) with
+          match taker h dt c fc i k.(c_parents) with
           | Some (p, j) => blame_pos f h dt p j
           | None => Some (c, i)
           end
